@@ -72,7 +72,10 @@ def masked_tokens(toks, kind, p):
     if kind.startswith("c"):
         return toks
     q = {"lit1": "'", "lit2": '"', "name": "`"}[kind]
-    # leaves hold the quoted text; enclosing groups render it inside their own source text
+    # the rendered source of a bracket group repeats its children's text (C04's business) and can contain the payload's code points at another
+    # alignment ('x',',' holds ',' twice): compare the structure and the leaves only
+    toks = re.sub(r"\b([PS]:\d+:)[0-9.]*\(", r"\1(", toks)
+    # leaves hold the quoted text
     return re.sub(r"(?<=[:.])" + re.escape(enc(q + p + q)) + r"(?=[ .(]|$)", "<P>", toks)
 
 
